@@ -136,6 +136,19 @@ func (e *engine) CompileModule(ctx context.Context, module *wasm.Module, listene
 	if err != nil {
 		return err
 	}
+	// The listeners are attached before the module becomes visible to concurrent users of the engine.
+	if len(listeners) > 0 {
+		cm.listeners = listeners
+		cm.listenerBeforeTrampolines = make([]*byte, len(module.TypeSection))
+		cm.listenerAfterTrampolines = make([]*byte, len(module.TypeSection))
+		for i := range module.TypeSection {
+			typ := &module.TypeSection[i]
+			before, after := e.getListenerTrampolineForType(typ)
+			cm.listenerBeforeTrampolines[i] = before
+			cm.listenerAfterTrampolines[i] = after
+		}
+	}
+
 	if err = e.addCompiledModule(module, cm); err != nil {
 		return err
 	}
@@ -146,18 +159,6 @@ func (e *engine) CompileModule(ctx context.Context, module *wasm.Module, listene
 			if err != nil {
 				return err
 			}
-		}
-	}
-
-	if len(listeners) > 0 {
-		cm.listeners = listeners
-		cm.listenerBeforeTrampolines = make([]*byte, len(module.TypeSection))
-		cm.listenerAfterTrampolines = make([]*byte, len(module.TypeSection))
-		for i := range module.TypeSection {
-			typ := &module.TypeSection[i]
-			before, after := e.getListenerTrampolineForType(typ)
-			cm.listenerBeforeTrampolines[i] = before
-			cm.listenerAfterTrampolines[i] = after
 		}
 	}
 	return nil
@@ -804,6 +805,9 @@ func (e *engine) getListenerTrampolineForType(functionType *wasm.FunctionType) (
 	e.mux.Lock()
 	defer e.mux.Unlock()
 
+	if e.sharedFunctions == nil {
+		return nil, nil // The engine was closed meanwhile: adding the compiled module reports it.
+	}
 	beforeBuf, ok := e.sharedFunctions.listenerBeforeTrampolines[functionType]
 	afterBuf := e.sharedFunctions.listenerAfterTrampolines[functionType]
 	if ok {
